@@ -41,20 +41,20 @@ type mChain struct {
 }
 
 type txMeta struct {
-	step     int
-	kind     string // transfer | ibtp | gov | vote | call | setup | raw
-	ibtp     *pb.IBTP
-	sender   *Key
-	proofOK  bool // harness-side judgement: proof hashes to ibtp.Proof and satisfies the bound rule
-	note     string
-	local    bool
-	call     *methodInfo
-	callArgs string
-	target   string         // governance: object or proposal id the transaction is about
-	judge    *mChain        // IBTP: the chain whose master rule judges the proof
-	eth      pb.Transaction // an Ethereum-format transaction: the block carries this instead of the placeholder
-	ethLabel string         // key label of its sender
-	kvKey, kvVal, kvMethod string // storage contract: record, value and method of the invocation
+	step                   int
+	kind                   string // transfer | ibtp | gov | vote | call | setup | raw
+	ibtp                   *pb.IBTP
+	sender                 *Key
+	proofOK                bool // harness-side judgement: proof hashes to ibtp.Proof and satisfies the bound rule
+	note                   string
+	local                  bool
+	call                   *methodInfo
+	callArgs               string
+	target                 string         // governance: object or proposal id the transaction is about
+	judge                  *mChain        // IBTP: the chain whose master rule judges the proof
+	eth                    pb.Transaction // an Ethereum-format transaction: the block carries this instead of the placeholder
+	ethLabel               string         // key label of its sender
+	kvKey, kvVal, kvMethod string         // storage contract: record, value and method of the invocation
 }
 
 // blockTx is what the block carries at a position: the transaction itself, or the Ethereum-format one it stands for.
@@ -111,11 +111,11 @@ type scn struct {
 	setupOccupancy                  map[string]string // role manager's "occupy-account-<addr>" records as the prologue left them (state key -> value)
 	relaySet                        map[int]bool      // validator indexes in the trust root currently stored for the other BitXHub (observed)
 	relayN                          int
-	icCum                           uint64      // C09: interchain transactions counted over all blocks (incl. the prologue)
+	icCum                           uint64                // C09: interchain transactions counted over all blocks (incl. the prologue)
 	kvModel                         map[string]string     // records of the storage contract: value of the last successful write
 	auditSponsor                    map[string]*Key       // proposal id -> account that submitted the audit operation
 	hist                            map[uint64]*histEntry // per height: what the reference computed (kept only when a replica lags, Policy.Burst)
-	prevRefDump                     [][2]string // state store of the reference replica after the previous block (only kept when there are other replicas)
+	prevRefDump                     [][2]string           // state store of the reference replica after the previous block (only kept when there are other replicas)
 }
 
 func (s *scn) vio(prop, oracle, discr, f string, a ...any) {
